@@ -288,7 +288,9 @@ def check(case):
                 elif name == "drop":
                     h.obj = None
                     h.dropped = True
-                    gc.collect()
+                    # reference counting frees an abandoned handle at once; the young generation is
+                    # collected as well (a full collection per drop made the thorough tier take 40 min)
+                    gc.collect(0)
                 elif name == "tool":
                     if lineage_state(h) != "live":
                         continue
@@ -375,5 +377,5 @@ def classify(case):
 
 
 def shards(tier):
-    return [Shard(f"histories-{i}", check, strategy=histories(tier), n=700, nontrivial=nontrivial,
-                  classify=classify, thorough_mult=20) for i in range(8)]
+    return [Shard(f"histories-{i}", check, strategy=histories(tier), n=400, nontrivial=nontrivial,
+                  classify=classify, thorough_mult=20) for i in range(16)]
